@@ -383,3 +383,162 @@ Proof.
   destruct (IB _ _ HB) as (_ & K). destruct (K _ Hi) as (t' & A & B & _).
   assert (t' = t) as -> by (eapply TBuffer.nodup_fst_inj; eauto). rewrite P2 in B. exact B.
 Qed.
+
+(* ------------------------------------------------------------------ no loaded item is left behind
+   A second invariant: the travelling items are exactly the items of the trips under way, each once,
+   and all still held by the fleet; every loaded item is held (waiting or travelling) or available. *)
+Definition FAcc (b : tf) : Prop :=
+  intransit b = concat (map fst (trips b)) /\
+  NoDup (intransit b) /\
+  (forall x, In x (intransit b) -> In x (transit (fs b))) /\
+  (forall i t, In (i, t) (loads b) -> In i (transit (fs b)) \/ exists a, In (i, a) (avail b)) /\
+  NoDup (map fst (loads b)).
+
+Lemma remove_first_keeps {A} (f : A -> bool) l x : In x l -> f x = false -> In x (remove_first f l).
+Proof.
+  induction l as [|y l IH]; simpl; [tauto|]. intros [->|H] F.
+  - rewrite F. left; reflexivity.
+  - destruct (f y); [exact H|right; apply IH; auto].
+Qed.
+
+Lemma ready_step_keeps s i s' ts x :
+  step s (Ready i) = (s', OOk, ts) -> In x (transit s) -> x <> i -> In x (transit s').
+Proof.
+  simpl. destruct (existsb (Nat.eqb i) (transit s)); simpl; [|discriminate].
+  destruct (ready_guard _ _); simpl; [|discriminate].
+  destruct (trig_get _) as [[s2 ts2]|] eqn:E; [|discriminate].
+  destruct (trig_put s2) as [s3 ts3] eqn:E3. intros [= <- <-] Hx NE.
+  apply (f_equal fst) in E3. simpl in E3. subst s3.
+  destruct (trig_put_fields s2) as (_ & T & _). rewrite T.
+  apply trig_get_fields in E. destruct E as (_ & T2 & _). rewrite T2. simpl.
+  apply remove_first_keeps; auto. apply Nat.eqb_neq. auto.
+Qed.
+
+Lemma arrive_keeps batch : forall s s' ts x,
+  arrive s batch = Some (s', ts) -> In x (transit s) -> ~ In x batch -> In x (transit s').
+Proof.
+  induction batch as [|i r IH]; intros s s' ts x E Hx NI; cbn [arrive] in E.
+  - inversion E; subst; auto.
+  - destruct (step s (Ready i)) as [[s1 res] ts1] eqn:E1. destruct res; try discriminate.
+    destruct (arrive s1 r) as [[s2 ts2]|] eqn:E2; [|discriminate]. inversion E; subst.
+    eapply IH; [exact E2| |intros C; apply NI; right; exact C].
+    eapply ready_step_keeps; [exact E1|exact Hx|]. intros ->. apply NI. left; reflexivity.
+Qed.
+
+Lemma filter_drop_prefix (batch rest : list nat) :
+  NoDup (batch ++ rest) ->
+  filter (fun t => negb (existsb (Nat.eqb t) batch)) (batch ++ rest) = rest.
+Proof.
+  intros ND. rewrite filter_app.
+  assert (filter (fun t => negb (existsb (Nat.eqb t) batch)) batch = []) as ->.
+  { assert (forall l, (forall x, In x l -> In x batch) -> filter (fun t => negb (existsb (Nat.eqb t) batch)) l = []) as K.
+    { induction l as [|y l IH]; simpl; auto. intros H.
+      assert (existsb (Nat.eqb y) batch = true) as ->.
+      { apply existsb_exists. exists y. split; [apply H; left; reflexivity|apply Nat.eqb_refl]. }
+      simpl. apply IH. intros x Hx. apply H. right; exact Hx. }
+    apply K. auto. }
+  simpl. assert (forall l, (forall x, In x l -> ~ In x batch) -> filter (fun t => negb (existsb (Nat.eqb t) batch)) l = l) as K.
+  { induction l as [|y l IH]; simpl; auto. intros H.
+    assert (existsb (Nat.eqb y) batch = false) as ->.
+    { destruct (existsb (Nat.eqb y) batch) eqn:E; auto. apply existsb_exists in E. destruct E as (z & Hz & Ez).
+      apply Nat.eqb_eq in Ez. subst z. exfalso. eapply H; [left; reflexivity|exact Hz]. }
+    simpl. f_equal. apply IH. intros x Hx. apply H. right; exact Hx. }
+  apply K. intros x Hx Hb. eapply NoDup_app_disj; eauto.
+Qed.
+
+Lemma finit_acc c d tr : FAcc (finit c d tr).
+Proof. unfold FAcc, finit; simpl. repeat split; try constructor; intros; tauto. Qed.
+
+Lemma fstep_acc b o b' r ts : FInv b -> FAcc b -> fstep b o = Some (b', r, ts) -> FAcc b'.
+Proof.
+  intros FI (A1 & A2 & A3 & A4 & A5) H. destruct o as [a|p t i| | |d]; unfold fstep in H.
+  - (* API *)
+    destruct (api_ok a) eqn:OK; [|discriminate]. destruct (step (fs b) a) as [[s' r'] ts'] eqn:E. inversion H; subst; clear H.
+    pose proof (api_transit _ _ _ _ _ OK E) as T. unfold FAcc, with_store; simpl. rewrite T. auto.
+  - (* load *)
+    destruct (existsb _ (loads b)) eqn:FR; [discriminate|].
+    assert (~ In i (map fst (loads b))) as Fresh.
+    { intros C. apply in_map_iff in C. destruct C as ([j tj] & Ej & Hj). simpl in Ej. subst j.
+      assert (existsb (fun x => Nat.eqb (fst x) i) (loads b) = true); [|congruence].
+      apply existsb_exists. exists (i, tj). split; auto. simpl. apply Nat.eqb_refl. }
+    destruct (step (fs b) (Put p t i)) as [[s' r'] ts'] eqn:E. destruct (load_transit _ _ _ _ _ _ _ E) as (L1 & L2).
+    destruct r'; inversion H; subst; clear H; unfold FAcc, with_store; simpl;
+      try (rewrite (L2 ltac:(discriminate)); repeat split; auto; fail).
+    rewrite (L1 eq_refl). repeat split; auto.
+    + intros x Hx. apply in_or_app. left. auto.
+    + intros j tj [Hj|Hj].
+      * inversion Hj; subst. left. apply in_or_app. right. left; reflexivity.
+      * destruct (A4 _ _ Hj) as [K|K]; [left; apply in_or_app; auto|right; exact K].
+    + constructor; auto.
+  - (* activation *)
+    destruct ((deadline b =? fclock b) || act b); [|discriminate].
+    destruct (transit (fs b)) as [|x0 tr0] eqn:ETR.
+    + inversion H; subst; clear H. unfold FAcc; simpl. rewrite ETR. auto.
+    + rewrite <- ETR in *. inversion H; subst; clear H. unfold FAcc; simpl.
+      set (batch := filter (fun it => negb (existsb (Nat.eqb it) (intransit b))) (transit (fs b))).
+      assert (forall x, In x batch -> In x (transit (fs b)) /\ ~ In x (intransit b)) as HB.
+      { intros x Hx. apply filter_In in Hx. destruct Hx as (Hx & Hn). split; auto. intros C.
+        apply negb_true_iff in Hn. assert (existsb (Nat.eqb x) (intransit b) = true); [|congruence].
+        apply existsb_exists. exists x. split; auto. apply Nat.eqb_refl. }
+      assert (NoDup batch) as NB.
+      { apply NoDup_filter. destruct FI as (_ & _ & _ & _ & _ & _ & _ & _ & (_ & ND & _)). eapply NoDup_app_l; eauto. }
+      repeat split.
+      * destruct batch as [|b0 bs] eqn:EB.
+        -- rewrite app_nil_r. exact A1.
+        -- rewrite map_app, concat_app. simpl. rewrite app_nil_r. rewrite A1. reflexivity.
+      * apply NoDup_app_intro; auto. intros x Hx Hb. destruct (HB _ Hb). auto.
+      * intros x Hx. apply in_app_or in Hx. destruct Hx as [Hx|Hx]; [auto|apply HB; exact Hx].
+      * exact A4.
+      * exact A5.
+  - (* arrival *)
+    destruct (trips b) as [|[batch due] rest] eqn:ET; [discriminate|].
+    destruct (due =? fclock b); [|discriminate].
+    destruct (arrive (fs b) batch) as [[s' ts']|] eqn:EA; [|discriminate]. inversion H; subst; clear H.
+    simpl in A1. unfold FAcc; simpl. rewrite A1 in *.
+    rewrite (filter_drop_prefix _ _ A2).
+    repeat split.
+    + eapply NoDup_app_r; eauto.
+    + intros x Hx. eapply arrive_keeps; [exact EA| |].
+      * apply A3. apply in_or_app. right; exact Hx.
+      * intros C. eapply NoDup_app_disj; eauto.
+    + intros j tj Hj. destruct (A4 _ _ Hj) as [K|(a & K)].
+      * destruct (in_dec Nat.eq_dec j batch) as [Hb|Hb].
+        -- right. exists (fclock b). apply in_or_app. left. apply in_map_iff. exists j. auto.
+        -- left. eapply arrive_keeps; eauto.
+      * right. exists a. apply in_or_app. right; exact K.
+    + exact A5.
+  - (* idle *)
+    destruct (_ && _); [|discriminate]. inversion H; subst; clear H. unfold FAcc; simpl. auto.
+Qed.
+
+Lemma frun_acc ops : forall b b', FInv b -> FAcc b -> frun b ops = Some b' -> FAcc b'.
+Proof.
+  induction ops as [|o r IH]; intros b b' FI FA E; cbn [frun] in E.
+  - inversion E; subst; auto.
+  - destruct (fstep b o) as [[[b1 r1] ts1]|] eqn:ES; [|discriminate].
+    eapply IH; [eapply fstep_inv; eauto|eapply fstep_acc; eauto|exact E].
+Qed.
+
+(* C14, the upper bound at full strength: in every legal timed history, once more than one waiting
+   delay plus one round trip has passed since an item was loaded, the item IS available -- no
+   loaded item is left behind, whatever was loaded before, during or after the trips *)
+Theorem fleet_no_item_left_behind c d tr ops b i t :
+  0 <= d -> 0 <= tr -> frun (finit c d tr) ops = Some b -> In (i, t) (loads b) ->
+  t + d + 2 * tr < fclock b -> exists a, In (i, a) (avail b) /\ t + 2 * tr <= a <= t + d + 2 * tr.
+Proof.
+  intros Hd Htr E Hi Late.
+  destruct (frun_inv ops _ _ (finit_inv c d tr Hd Htr) E) as (FI & P1 & P2). simpl in P1, P2.
+  pose proof (frun_acc ops _ _ (finit_inv c d tr Hd Htr) (finit_acc c d tr) E) as (A1 & A2 & A3 & A4 & A5).
+  destruct FI as (F1 & F2 & F3 & F4 & F5 & F6 & F7 & F8 & F9).
+  destruct (A4 _ _ Hi) as [K|(a & K)].
+  - exfalso. destruct (in_dec Nat.eq_dec i (intransit b)) as [Hin|Hout].
+    + (* on a trip: the trip is due within the bound and not in the past *)
+      rewrite A1 in Hin. apply in_concat in Hin. destruct Hin as (batch & Hb & Hib).
+      apply in_map_iff in Hb. destruct Hb as ([batch' due] & Eb & Hb). simpl in Eb. subst batch'.
+      destruct (F5 _ _ Hb) as (Fut & Each). destruct (Each _ Hib) as (t' & L' & _ & Up).
+      assert (t' = t) as -> by (eapply TBuffer.nodup_fst_inj; eauto). rewrite P1, P2 in *. lia.
+    + (* still waiting: the activation deadline is within the bound and not in the past *)
+      pose proof (F4 _ _ Hi K Hout). rewrite P1 in *. lia.
+  - exists a. split; auto. destruct (F6 _ _ K) as (t' & L' & Lo & Up).
+    assert (t' = t) as -> by (eapply TBuffer.nodup_fst_inj; eauto). rewrite P1, P2 in *. lia.
+Qed.
